@@ -344,12 +344,15 @@ def r07_4(ctx, g):
     # the stored tag is (type, value) with value = third piece, key = first piece
     an = g.add_node
     st = [s for s in walk_own(an.node) if isinstance(s, ast.Assign) and isinstance(s.targets[0], ast.Subscript) and ".tags" in norm(s.targets[0].value)]
-    from ..core import resolve_expr
+    from ..core import make_resolver
 
+    res_ = make_resolver(an.node.body)
     ok = False
+    if len(st) != 1:
+        raise AnalysisError("R07.4", an.where(), f"cannot find the one place where add_node stores a tag ({len(st)} stores into a .tags mapping)")
     if len(st) == 1:
-        k_txt = resolve_expr(an.node, st[0].targets[0].slice)
-        v_txt = resolve_expr(an.node, st[0].value)
+        k_txt = norm(res_(st[0].targets[0].slice))
+        v_txt = norm(res_(st[0].value))
         if k_txt.endswith("[0]"):
             base = k_txt[:-3]
             ok = v_txt == f"({base}[1], {base}[2])" and (base.isidentifier() or ".split(':'" in base)
@@ -562,8 +565,13 @@ def r07_10(ctx, g):
     calls = [c for c in walk_own(rg.node) if isinstance(c, ast.Call) and isinstance(c.func, ast.Attribute) and c.func.attr == "add_node"]
     ctx.require_count("R07.10", len(calls), 1, rg.where(), "add_node calls of the reader")
     ld = local_defs(rg.node)
+    from ..core import make_resolver
+
     for c in calls:
-        a = [norm(x) for x in c.args]
+        # temporaries of the enclosing block (node_id, node_tags = fields[1], fields[3:]) are looked through
+        blk = next((lst for n_ in ast.walk(rg.node) for fld in ("body", "orelse") for lst in [getattr(n_, fld, None)] if isinstance(lst, list) and any(any(x is c for x in ast.walk(s_)) for s_ in lst) and any(isinstance(s_, ast.Assign) for s_ in lst)), rg.node.body)
+        res_ = make_resolver(blk)
+        a = [norm(res_(x)) for x in c.args]
         seq_ok = False
         fields = None
         import re as _re
@@ -592,6 +600,12 @@ def r07_10(ctx, g):
     # overlap round trip
     ov_read = [st for st in walk_own(rg.node) if isinstance(st, ast.Assign) and isinstance(st.targets[0], ast.Subscript) and const_value(st.targets[0].slice) == 4 and norm(st.value).startswith("int(")]
     ok_r = len(ov_read) == 1 and norm(ov_read[0].value) == f"int({norm(ov_read[0].targets[0])}[:-1])"
+    if not ov_read:
+        # the overlap kept in a variable of its own: overlap = int(<columns>[4][:-1]) (0-based column 5 of the L line)
+        import re as _re
+
+        ov_read = [st for st in walk_own(rg.node) if isinstance(st, ast.Assign) and _re.fullmatch(r"int\((\w+)\[(4|5)\]\[:-1\]\)", norm(st.value))]
+        ok_r = len(ov_read) == 1
     wf = g.write_gfa
     # the sixth item of every L line built in a per-neighbour loop: str(<neighbour>[2]) + "M", directly or through a local
     ov_w = []
